@@ -194,16 +194,25 @@ def wrappers(job, fb, m):
             with tr.traced():
                 return fb.fd_weights(nodes, x0, n)
         wa = np.asarray(sn.run_single(h_all).result)
-        w1 = np.asarray(sn.run_single(h_one).result)
-        job.paths += 2
-        ok = w1.shape == (m,) and wa.shape == (n + 1, m)
-        if not job.confirm('fd_weights shape', ok):
-            job.violation('fd_weights-shape', dict(key='C15:fd_weights-shape', kind='wrapper', m=m, n=n))
-            continue
-        for v in range(m):
-            job.prove('fd_weights is row n [m=%d n=%d v=%d]' % (m, n, v),
-                      z3.simplify(sn.lift(w1[v]) - sn.lift(wa[n, v]), som=True) == 0, [],
-                      dict(key='C15:fd_weights-not-row-n', kind='wrapper', m=m, n=n))
+        job.paths += 1
+        # fd_weights may branch on the data (e.g. x0 on a node): every feasible path must return row n
+        exw = sn.Explorer(h_one, max_paths=64, timeout_ms=20000)
+        for p in exw.paths():
+            if p.exc is not None:
+                if isinstance(p.exc, sn.Unsupported):
+                    raise p.exc
+                job.violation('fd_weights-raises', dict(key='C15:fd_weights-raises', kind='wrapper', m=m, n=n, exc=repr(p.exc)[:200]))
+                continue
+            w1 = np.asarray(p.result)
+            ok = w1.shape == (m,) and wa.shape == (n + 1, m)
+            if not job.confirm('fd_weights shape', ok):
+                job.violation('fd_weights-shape', dict(key='C15:fd_weights-shape', kind='wrapper', m=m, n=n))
+                continue
+            for v in range(m):
+                job.prove('fd_weights is row n [m=%d n=%d v=%d]' % (m, n, v),
+                          z3.simplify(sn.lift(w1[v]) - sn.lift(wa[n, v]), som=True) == 0, p.conds(),
+                          dict(key='C15:fd_weights-not-row-n', kind='wrapper', m=m, n=n, nodes=[str(q) for q in nodes_q]))
+        job.absorb_explorer(exw)
     # results of earlier calls must stay valid after later calls with the same sizes (no shared work buffer)
     xa, xb = sn.real_var('x0a'), sn.real_var('x0b')
     for n in range(min(m, 3)):
@@ -215,12 +224,22 @@ def wrappers(job, fb, m):
                 fb.fd_weights_all(nodes, xb, n)
                 fb.fd_weights(nodes, xb, n)
                 return first, keep, row_first
-        first, keep, row_first = sn.run_single(h_two).result
-        job.paths += 1
-        same = all(z3.is_true(z3.simplify(sn.lift(np.asarray(first)[k, v]) == sn.lift(keep[k][v]))) for k in range(n + 1) for v in range(m))
-        same = same and all(z3.is_true(z3.simplify(sn.lift(np.asarray(row_first)[v]) == sn.lift(keep[n][v]))) for v in range(m))
-        if not job.confirm('earlier result unchanged by a later call [m=%d n=%d]' % (m, n), bool(same)):
-            job.violation('aliasing', dict(key='C15:result-aliases-internal-buffer', kind='alias', m=m, n=n))
+        ex2 = sn.Explorer(h_two, max_paths=64, timeout_ms=20000)
+        for p in ex2.paths():
+            if p.exc is not None:
+                if isinstance(p.exc, sn.Unsupported):
+                    raise p.exc
+                job.violation('fd_weights-raises', dict(key='C15:fd_weights-raises', kind='wrapper', m=m, n=n, exc=repr(p.exc)[:200]))
+                continue
+            first, keep, row_first = p.result
+            same = all(z3.is_true(z3.simplify(sn.lift(np.asarray(first)[k, v]) == sn.lift(keep[k][v]))) for k in range(n + 1) for v in range(m))
+            if not job.confirm('earlier result unchanged by a later call [m=%d n=%d]' % (m, n), bool(same)):
+                job.violation('aliasing', dict(key='C15:result-aliases-internal-buffer', kind='alias', m=m, n=n))
+            for v in range(m):
+                job.prove('earlier fd_weights row unchanged by a later call [m=%d n=%d v=%d]' % (m, n, v),
+                          z3.simplify(sn.lift(np.asarray(row_first)[v]) - sn.lift(keep[n][v]), som=True) == 0, p.conds(),
+                          dict(key='C15:fd_weights-not-row-n', kind='wrapper', m=m, n=n))
+        job.absorb_explorer(ex2)
     # guard: n >= len(x) must raise ValueError
     for n in (m, m + 1):
         def h_bad():
